@@ -199,3 +199,9 @@ Theorem from_file_is_source : forall conv sq ss header0 o lines,
   from_file_gen lines sq ss header0 (pf_of conv o) = parse_mapping conv sq ss header0 o lines.
 Proof. exact from_file_bridge. Qed.
 Print Assumptions from_file_is_source.
+(* why the vocabulary may read `vals[0]` / `i[0]` without an IndexError arm: every row the generated
+   loop stores is non-empty (str.split never returns an empty list), from any header override *)
+Theorem from_file_rows_nonempty_is_source : forall sq ss lines header0 h md c,
+  fold_left (from_file_line_gen sq ss) lines (header0, [], []) = (h, md, c) -> Forall (fun r => r <> []) md.
+Proof. intros sq ss lines header0 h md c. apply from_file_rows_nonempty. constructor. Qed.
+Print Assumptions from_file_rows_nonempty_is_source.
